@@ -21,7 +21,8 @@ from vivarium.core.process import ParallelProcess, Process
 from vivarium.library.dict_utils import (
     deep_compare, deep_copy_internal, deep_merge, deep_merge_check,
     MULTI_UPDATE_KEY)
-from vivarium.library.topology import dict_to_paths, normalize_path
+from vivarium.library.topology import (
+    dict_to_paths, normalize_path, get_in)
 from vivarium.core.types import Processes, Topology, State, Steps, Flow
 from vivarium.core.serialize import QuantitySerializer
 
@@ -1376,15 +1377,17 @@ class Store:
         step_paths = dict_to_paths(root, insertion.get('steps', {}))
         step_updates.extend(step_paths)
 
-        topology_paths = [
-            (root + (key,), topology)
-            for key, topology in insertion['topology'].items()]
-        topology_updates.extend(topology_paths)
-
-        flow_paths = [
-            (root + (key,), flow)
-            for key, flow in insertion.get('flow', {}).items()]
-        flow_updates.extend(flow_paths)
+        # report the topology and the flow entry of every process and
+        # step, also of those nested below the top level of the
+        # insertion (the engine looks them up by the step's own path)
+        for process_path, _ in process_paths + step_paths:
+            relative = process_path[len(root):]
+            ports = get_in(insertion['topology'], relative)
+            if ports is not None:
+                topology_updates.append((process_path, ports))
+            dependencies = get_in(insertion.get('flow') or {}, relative)
+            if dependencies is not None:
+                flow_updates.append((process_path, dependencies))
 
         self._apply_subschema_path(path)
         target = self.get_path(path)
@@ -1501,8 +1504,9 @@ class Store:
             flow_updates.extend(flow_paths)
 
             topology_paths = [
-                (root + (key,), ports)
-                for key, ports in topology.items()]
+                (process_path, get_in(topology, process_path[len(root):]))
+                for process_path, _ in process_paths
+                if get_in(topology, process_path[len(root):]) is not None]
             topology_updates.extend(topology_paths)
 
             self._apply_subschema_path(daughter_path)
